@@ -68,6 +68,8 @@ def family(tier: str) -> List[tuple]:
     inner = [(x,) for x in LEAVES + c11]
     d2 = compounds(inner, 2, else_from=1)
     units += [(x,) for x in d2]
+    # predicates answering 0 / 1 (truthiness, not identity with True)
+    units += [('int-predicates', (x, y)) for x in c11 for y in c11[:8]]
     if tier != 'quick':
         units += [(step, x, step) for x in d2]
         # depth 2 with two-instruction bodies mixing a leaf and a compound
@@ -118,11 +120,12 @@ ENV: Any = None
 
 
 class _Run:
-    def __init__(self, chooser: Chooser, whiles: set) -> None:
+    def __init__(self, chooser: Chooser, whiles: set, int_predicates: bool = False) -> None:
         self.chooser = chooser
         self.calls: List[Tuple[str, Any]] = []
         self.true_count: Dict[str, int] = {}
         self.whiles = whiles
+        self.int_predicates = int_predicates  # predicates answer 0 / 1 instead of False / True
 
     def predicate(self, name: str) -> bool:
         if name in self.whiles and self.true_count.get(name, 0) >= W:
@@ -132,7 +135,7 @@ class _Run:
             if value:
                 self.true_count[name] = self.true_count.get(name, 0) + 1
         self.calls.append((name, value))
-        return value
+        return int(value) if self.int_predicates else value
 
     def step(self, name: str) -> Any:
         value = STEP_VALUES[self.chooser.choose([((name, v), '') for v in STEP_VALUES])]
@@ -290,6 +293,9 @@ def kinds_in(named: tuple) -> List[str]:
 
 class Prop:
     def make_run(self, unit: Any) -> Any:
+        int_predicates = bool(unit) and unit[0] == 'int-predicates'
+        if int_predicates:
+            unit = unit[1]
         named = name_ast(unit, Names())
         klass, whiles = build_class(named)
 
@@ -298,7 +304,7 @@ class Prop:
             res = ExecResult()
             loop = VLoop(horizon=2000)
             loop.install()
-            env = _Run(chooser, whiles)
+            env = _Run(chooser, whiles, int_predicates)
             prev, ENV = ENV, env
             try:
                 proc = klass(pid='w0', loop=loop)
@@ -354,7 +360,7 @@ def run_check(tier: str, seed: int, workers: Any) -> Dict[str, Any]:
         assumptions=['steps and predicates are synchronous and have no other effect than their return value',
                      f'while_ predicates are true at most {W} times per run'],
         bounds={'tier': tier, 'W': W, 'outlines': len(units), 'max_conditions': 2 if tier == 'quick' else 3},
-        describe=lambda u: shape(name_ast(u, Names())))
+        describe=lambda u: shape(name_ast(u[1] if u and u[0] == 'int-predicates' else u, Names())))
 
 
 def replay(doc: Dict[str, Any]) -> List[dict]:
